@@ -34,6 +34,7 @@ def run(ctx):
     core.run_sharded(ctx, __name__, "shard", 8 if ctx.tier == "quick" else 16)
     if ctx.tier == "thorough":
         ctx.extra["exhaustive"] = bool(ctx.extra.get("enumeration_complete"))
+        core.run_fuzz(ctx, 60000)
 
 
 def replay(ctx, case):
